@@ -9,7 +9,7 @@ import mpmath
 
 from vf import harness, vecsem
 
-RULE = ("generated expr = sum k_i * w_i with coefficients from {-1, integers, symbols, sums, quotients, products needing "
+RULE = ("[coefficients multiplied, in 40% of the cases, by Abs(s), sqrt(s**2), 1/Abs(s), s/Abs(s) or Abs(s)/s of a real scalar that takes both signs] generated expr = sum k_i * w_i with coefficients from {-1, integers, symbols, sums, quotients, products needing "
         "expansion} and w_i atomic vectors, vector functions or cross products of atoms; the unknown may occur in several "
         "expanded terms; input given as expression or as Eq(lhs, rhs) split; for every atomic vector and both reduce_factor "
         "modes the returned Eq(L, R) is interpreted in R^3 at 3 random assignments: L - R must equal expr divided by the "
@@ -21,7 +21,7 @@ RULE = ("generated expr = sum k_i * w_i with coefficients from {-1, integers, sy
 RULE = RULE + ' Also: eleven ill-formed expressions (a vector in a denominator in whatever form, scalar + vector, norm, vector + dot product) must be refused.'
 ASSUMPTIONS = ["vf/vecsem.py coordinate semantics", "3 random real assignments decide a rational identity"]
 N = {"quick": 480, "thorough": 19200}
-MIN_REACH = {"quick": {"rearranged": 1200, "refused_not_a_term": 80, "refused_non_vector": 30, "solution_substituted": 150,
+MIN_REACH = {"quick": {"rearranged": 1200, "sign_dependent_coefficient": 120, "refused_not_a_term": 80, "refused_non_vector": 30, "solution_substituted": 150,
                        "unknown_in_several_terms": 60, "scalar_solved": 200, "radical": 40, "apply": 200, "refused_ill_formed": 1000},
              "thorough": {"rearranged": 40000, "scalar_solved": 8000}}
 SHARD_TIMEOUT = {"quick": 600, "thorough": 3000}
@@ -88,6 +88,16 @@ def vec_equation_case(r, rec):
         rec.hit("nested_brackets")
     if F is not None:
         terms.append(coeff() * F)
+    # coefficients whose sign depends on the sign of a real scalar (Abs(s), sqrt(s**2), their reciprocals): drawn from a
+    # stream of its own so that the main stream is unchanged
+    import random as _random
+    rx = _random.Random(harness.h([str(x) for x in terms]))
+    if rx.random() < 0.4:
+        sgn = [lambda x: sympy.Abs(x), lambda x: sympy.sqrt(x**2), lambda x: 1 / sympy.Abs(x), lambda x: x / sympy.Abs(x), lambda x: sympy.Abs(x) / x]
+        for _ in range(rx.choice([1, 1, 2])):
+            i = rx.randrange(len(terms))
+            terms[i] = rx.choice(sgn)(rx.choice(Sx)) * terms[i]
+        rec.hit("sign_dependent_coefficient")
     r.shuffle(terms)
     expr = sum(terms[1:], terms[0])
     if r.random() < 0.5 and len(terms) > 1:
